@@ -4,7 +4,7 @@
    every value and every TypeVar environment.                                                 *)
 From Coq Require Import List Arith Bool ZArith.
 From PV Require Import Base.Exn Base.Values Base.Ann Model.CheckerCfg Model.Checker Spec.Conforms
-  Gen.CheckerTables Proofs.CheckerGood Proofs.CheckerRefine Proofs.CheckerSpec Proofs.CheckerTop.
+  Gen.CheckerTables Proofs.CheckerGood Proofs.CheckerRefine Proofs.CheckerSpec Proofs.CheckerTop Proofs.CheckerDeepPos.
 Import ListNotations.
 
 Definition cfg := Gen.CheckerTables.checker_cfg.
@@ -65,6 +65,18 @@ Proof.
 Qed.
 Print Assumptions C01_corruption_propagates_tuplevar.
 
+(* ... and at ANY depth: a non-conforming sub-position reachable through any number of container layers (elements of every
+   element-wise generic, keys / values of mappings and items views, slots of fixed and variadic tuples, NewType wrappers)
+   makes the whole value non-conforming, hence rejected with PedanticTypeCheckException *)
+Theorem C01_deep_corruption_rejected : forall ctx hook a v a' y tv, supported ctx a = true ->
+  reaches a v a' y -> conforms ctx a' y = MustNot ->
+  exists e, assert_matches cfg ctx hook a v tv = (Raise e, tv) /\ derives e PTypeCheckC = true.
+Proof.
+  intros ctx hook a v a' y tv Hs Hr Hbad.
+  exact (nonconforming_rejected cfg good ctx hook a v tv Hs (deep_position_breaks ctx a v a' y Hr Hbad)).
+Qed.
+Print Assumptions C01_deep_corruption_rejected.
+
 (* non-vacuity: Dict[str, List[Optional[int]]] in builtin spelling is in the vocabulary; a conforming
    value is accepted, the same value with one deep element replaced by a str is rejected *)
 Definition ex_ann : ann :=
@@ -88,3 +100,12 @@ Example ex_callable_clash :
   fst (assert_matches1 cfg (fun _ => None) (ACallable (Some [ACls CInt]) (ACls CInt)) f_str_int []) = Raise PTypeCheckC /\
   fst (assert_matches1 cfg (fun _ => None) (ACallable (Some [ACls CInt]) (ACls CInt)) g_int_obj []) = Raise PTypeCheckC.
 Proof. repeat split; vm_compute; reflexivity. Qed.
+
+(* the str 'x' three layers down in ex_bad is a sub-position checked against Optional[int] *)
+Example ex_reaches : reaches ex_ann ex_bad (AUnion UTyping [ACls CInt; ACls CNoneType]) (VStr [120]).
+Proof.
+  unfold ex_ann, ex_bad.
+  eapply (r_val SpBuiltin TDict (ACls CStr) _ _ _ (VStr [97]) (VList [VInt 1; VStr [120]])); try reflexivity; [now left|].
+  eapply (r_elem SpBuiltin TList _ _ _ (VStr [120])); try reflexivity; [right; now left|].
+  apply r_here.
+Qed.
